@@ -267,14 +267,20 @@ PROPS["C10"] = dict(
                   "RuntimeError('No b found') in the p = 1 (mod 8) square-root branch needs a quadratic non-residue below p: assumed"],
     explanation="exceptional postconditions collected per decoder entry point: every path of every loader / signature decoder / verification entry point raises only the documented classes; every while loop on these call graphs has a decreases clause or is bounded by the input length",
 )
+def _c09_b(tier, seed):
+    from contracts.keys_ser import c09_bounded
+    return c09_bounded(tier, seed)
+
+
 PROPS["C09"] = dict(
     level="other",
     functions=[_K + "VerifyingKey.to_string", _K + "VerifyingKey.to_der", _K + "SigningKey.to_string", _K + "SigningKey.to_der", _K + "VerifyingKey.from_string",
                _K + "VerifyingKey.from_der", _K + "SigningKey.from_string", _K + "SigningKey.from_der", _K + "SigningKey.from_secret_exponent",
                "ecdsa.util.number_to_string", "ecdsa.util.string_to_number", "ecdsa.util.orderlen",
                "ecdsa.der.encode_sequence", "ecdsa.der.encode_integer", "ecdsa.der.encode_octet_string", "ecdsa.der.encode_constructed", "ecdsa.der.encode_bitstring", "ecdsa.der.encode_length"],
-    lemmas=["C09.public_key_string_roundtrip"],
-    bounded=[],
+    lemmas=["C09.public_key_string_roundtrip", "C09.public_key_der_roundtrip", "der.roundtrip_sequence", "der.roundtrip_bitstring", "der.roundtrip_length"],
+    bounded=[dict(function=_K + "VerifyingKey.to_der", label="exact bytes vs independent encoders, all round trips, PEM armour", role="bounded stand-in (private-key DER/PEM round trips, PEM armour) and CPython cross-check",
+                  bound="17 curves x boundary scalars (1, n-1, leading-zero scalars) x {raw, DER, PEM} x {ssleay, pkcs8} x {uncompressed, compressed, hybrid}; topem/unpem for every length 0..199 (quick) / 399 x 3 patterns x 3 headers", run=_c09_b, budget_s={"quick": 60, "thorough": 900})],
     min_obligations=30,
     trusted_base=["coordinate world (see C08)", "X.690 / RFC 5480 / RFC 5915 / RFC 5958 spec encoders of spec/der.py and contracts/keys_ser.py", "OID codec: assumed contract + closed-term check of the table",
                   "PEM armour (topem/unpem): bounded stand-in"],
